@@ -22,7 +22,7 @@ func allAPIs(multi, solo int) map[string]int {
 func base(prop string) *Params {
 	return &Params{Prop: prop, Family: prop, Alpha: Alpha{Plain: 6, Framing: 3, Structured: 2}, APIw: allAPIs(3, 1),
 		MinTests: 1, MaxTests: 4, MaxCalls: 4, MaxDepth: 2, SubP: 0.35, CfgP: 0.4, NCfg: 3, UpdateOpt: 0, JSONOpt: 0.2, SharedFileP: 0.5,
-		ManyCallsP: 0.1, RecordCount: []int{1}, Counts: []int{1}, L0P: 0.3, ExtraLifeP: 0.2}
+		ManyCallsP: 0.1, RecordCount: []int{1}, Counts: []int{1}, L0P: 0.3, ExtraLifeP: 0.2, PreDeleteP: 0.08}
 }
 
 // Preset returns the generator parameters of a property family. variant
@@ -139,6 +139,7 @@ func Preset(prop string, adversarial bool, r *scen.Rand) *Params {
 		p.Alpha = Alpha{Plain: 10, Framing: 0, Structured: 1}
 		p.Envs = allEnvs
 		p.EditKinds = []string{"removecall", "removetest", "removesub", "skip", "addcall", "addtest"}
+		p.FaultP = 0.1 // a directory that cannot be listed excuses that directory only
 		p.Counts = []int{1, 2, 3}
 		p.CleanP = 1
 		p.SortP = 0.5
